@@ -143,6 +143,16 @@ class SkPath(Ext):
             return (attr, self)
         if attr == "area":
             return SkArea(self)
+        if attr in ("contours", "segments") and self.region is None and not self.calls:
+            if attr == "segments":
+                return [(n, tuple(zip(a[::2], a[1::2]))) for n, a in self.verbs]
+            out, cur = [], None
+            for n, a in self.verbs:
+                if n == "moveTo" or cur is None:
+                    cur = []
+                    out.append(cur)
+                cur.append((n, a))
+            return out
         raise Undecided(f"pathops.Path.{attr} is not part of the model")
 
 
